@@ -202,6 +202,10 @@ func (f *Frame) bitop(st *State, op token.Token, a, b Val, t types.Type, bits in
 			if cb.Sign() == 0 {
 				return x
 			}
+			if k, ok := isMask(cb); ok {
+				// x | (2^k - 1): the low k bits become ones
+				return fmt.Sprintf("(+ (- %s (mod %s %s)) %s)", x, x, pow2(k).String(), cb.String())
+			}
 		case token.XOR:
 			if cb.Sign() == 0 {
 				return x
@@ -227,6 +231,12 @@ func (f *Frame) bitop(st *State, op token.Token, a, b Val, t types.Type, bits in
 			st.assume(fmt.Sprintf("(>= %s %s)", r, y))
 			st.assume(fmt.Sprintf("(<= %s (+ %s %s))", r, x, y))
 			st.assume(fmt.Sprintf("(< %s %s)", r, pow2(bits).String()))
+			// disjoint bits: (a << k) | b with b < 2^k is a + b (sound bit-level identity)
+			for _, k := range []int{1, 2, 4, 8, 16, 32} {
+				p := pow2(k).String()
+				st.assume(fmt.Sprintf("(=> (and (= (mod %s %s) 0) (< %s %s)) (= %s (+ %s %s)))", x, p, y, p, r, x, y))
+				st.assume(fmt.Sprintf("(=> (and (= (mod %s %s) 0) (< %s %s)) (= %s (+ %s %s)))", y, p, x, p, r, x, y))
+			}
 		case token.XOR:
 			st.assume(fmt.Sprintf("(<= %s (+ %s %s))", r, x, y))
 			st.assume(fmt.Sprintf("(< %s %s)", r, pow2(bits).String()))
@@ -675,12 +685,10 @@ func (f *Frame) equal(st *State, a, b Val, n ast.Node) string {
 			return fmt.Sprintf("(= %s ifc_nil)", b.T)
 		case *types.Slice:
 			so := f.c.sorts.SortOf(b.Ty)
-			fn := f.c.uf("isnil_"+sanitize(so), []string{so}, "Bool")
-			st.assume(fmt.Sprintf("(=> (%s %s) (= (%s.len %s) 0))", fn, b.T, so, b.T))
-			return fmt.Sprintf("(%s %s)", fn, b.T)
+			return fmt.Sprintf("(< (%s.off %s) 0)", so, b.T) // the nil slice has offset -1
 		case *types.Map:
 			so := f.c.sorts.SortOf(b.Ty)
-			fn := f.c.uf("isnil_"+sanitize(so), []string{so}, "Bool")
+			fn := f.nilFn(b.Ty)
 			st.assume(fmt.Sprintf("(=> (%s %s) (= (%s.card %s) 0))", fn, b.T, so, b.T))
 			return fmt.Sprintf("(%s %s)", fn, b.T)
 		case *types.Signature, *types.Chan:
@@ -957,6 +965,18 @@ func (f *Frame) indexVal(st *State, base, i Val, n ast.Node, check bool) Val {
 	}
 	f.unsupported(n, "index into %v", base.Ty)
 	return Val{}
+}
+
+// nilFn returns the (uninterpreted) nil-ness predicate of a map sort.
+func (f *Frame) nilFn(t types.Type) string {
+	so := f.c.sorts.SortOf(t)
+	fn := f.c.uf("isnil_"+sanitize(so), []string{so}, "Bool")
+	return fn
+}
+
+// notNil records that a freshly made slice/map value is not nil.
+func (f *Frame) notNil(st *State, v Val) {
+	st.assume(fmt.Sprintf("(not (%s %s))", f.nilFn(v.Ty), v.T))
 }
 
 // arrTerm gives the (Array Int E) term holding the elements of an array-typed value.
